@@ -43,8 +43,9 @@ MemberSitesOf(k) == IF k = "GROUP" THEN {"GROUP/REF_CHARACTERISTIC.identifier_li
                     ELSE {"FUNCTION/IN_MEASUREMENT.identifier_list", "FUNCTION/LOC_MEASUREMENT.identifier_list",
                           "FUNCTION/OUT_MEASUREMENT.identifier_list", "FUNCTION/DEF_CHARACTERISTIC.identifier_list",
                           "FUNCTION/REF_CHARACTERISTIC.identifier_list"}
-MixedCases == UNION {UNION {{[fam |-> "mixed", gk |-> gk, bad |-> b, good |-> g] : g \in MemberSitesOf(gk) \ {b}} : b \in MemberSitesOf(gk)} :
-                        gk \in {"GROUP", "FUNCTION"}}
+\* held: the group / function is referenced from outside, so it stays even if cleanup emptied it
+MixedCases == UNION {UNION {UNION {{[fam |-> "mixed", gk |-> gk, bad |-> b, good |-> g, held |-> h] : g \in MemberSitesOf(gk) \ {b}} :
+                                      b \in MemberSitesOf(gk)} : gk \in {"GROUP", "FUNCTION"}} : h \in BOOLEAN}
 IsMeasSite(s) == s \in {"GROUP/REF_MEASUREMENT.identifier_list", "FUNCTION/IN_MEASUREMENT.identifier_list",
                         "FUNCTION/LOC_MEASUREMENT.identifier_list", "FUNCTION/OUT_MEASUREMENT.identifier_list"}
 
@@ -85,6 +86,9 @@ ModuleOf(x) ==
     ELSE IF x.fam = "mixed" THEN
         <<El(x.gk, "g1", 20, <<<<x.bad, <<"missing1", "missing2">>>>, <<x.good, <<"x0">>>>>>),
           El(IF IsMeasSite(x.good) THEN "MEASUREMENT" ELSE "CHARACTERISTIC", "x0", 60, <<>>)>>
+        \o (IF ~x.held THEN <<>>
+            ELSE IF x.gk = "GROUP" THEN <<El("USER_RIGHTS", "user0", 41, <<<<"USER_RIGHTS/REF_GROUP.identifier_list", <<"g1">>>>>>)>>
+            ELSE <<El("MEASUREMENT", "m1", 52, <<<<"MEASUREMENT/FUNCTION_LIST.name_list", <<"g1">>>>>>)>>)
     ELSE
         <<El(x.gk, "g1", 20, <<<<MemberSite(x.gk), <<"x0">>>>>>), El(x.mk, "x0", 60, <<>>)>>
 
